@@ -31,6 +31,12 @@ def _profile_freshness(project, rep):
         rep.check("N-R10", o.construct, o.ok, o.detail, o.loc)
     if not got:
         rep.note("N-R10 undecided: the return rules of request_profile produced no verdict")
+    # ... and it must be THIS institution's profile: ORG and FID reach the cache file name whole and un-merged (the
+    # key-quality clauses of K-R3), else another institution's cached profile routes this user's credentials
+    rep.rule("N-R13", "the cached profile that routes the credentialed requests is this institution's own: ORG and FID reach the cache file name whole (no with_suffix / splitext cutting at a dot), un-merged (no many-to-one rewriting) and stable (K-R3 key-quality clauses)")
+    for o in tmp.obligations:
+        if o.construct in ("request_profile:cache-key-components-whole", "request_profile:cache-key-components-unmerged", "request_profile:cache-key-stable-across-processes"):
+            rep.check("N-R13", o.construct, o.ok, o.detail, o.loc)
 
 
 def run(project, rep):
